@@ -364,6 +364,9 @@ func (C11Iso) Init(env world.Env) mc.Model {
 	return c11Model{Start: start, NotifT: t}
 }
 
+// identifiers of O's resources in whitespace / case / separator variants, for messages that name a resource
+var c11FeedVariants = []string{"feedO ", " feedO", "FEEDO", "feedO/", "feedO\n"}
+
 var c11IsoKinds = []string{"SetIP", "SetKeybase", "SetSpace", "AddClaimer", "RemoveClaimer", "Shutdown", "InitProvider", "UpdateFeedO", "CreateFeedOwn", "UpdateFeedOwn",
 	"DeleteNotif", "BlockSenders", "MakePrimary", "DeleteFile", "RegisterOwnName"}
 
@@ -374,6 +377,10 @@ func (C11Iso) Events(env world.Env, mm mc.Model) []string {
 			evs = append(evs, k+":"+who)
 		}
 	}
+	for i := range c11FeedVariants {
+		evs = append(evs, fmt.Sprintf("CreateFeedVariant:N:%d", i), fmt.Sprintf("UpdateFeedVariant:N:%d", i))
+	}
+	evs = append(evs, "DeleteNotifVariant:N:0", "DeleteNotifVariant:N:1", "DeleteFileVariant:N")
 	if mm.(c11Model).Blocks < 1 {
 		evs = append(evs, "NextBlock")
 	}
@@ -392,7 +399,10 @@ func c11Owned(w *world.World, ctx sdk.Context, who string, feed string) map[stri
 		}
 	}
 	for _, kv := range w.DumpStore(ctx, "oracle") {
-		if bytes.Contains(kv.K, []byte(feed)) {
+		// the feed the account created: the record stored under exactly that name, or any record naming it as owner
+		var f oracletypes.Feed
+		owned := w.Cdc().Unmarshal(kv.V, &f) == nil && f.Owner == addr
+		if owned || string(kv.K) == "Feed/value/"+feed+"/" {
 			out["oracle/"+string(kv.K)] = string(kv.V)
 		}
 	}
@@ -451,6 +461,22 @@ func (C11Iso) Apply(env world.Env, mm mc.Model, ev string) mc.Step {
 		msg = mp
 	case "DeleteFile":
 		msg = storagetypes.NewMsgDeleteFile(who, c01F1.merkle, m.Start)
+	case "CreateFeedVariant":
+		var i int
+		fmt.Sscan(p[2], &i)
+		msg = oracletypes.NewMsgCreateFeed(who, c11FeedVariants[i])
+	case "UpdateFeedVariant":
+		var i int
+		fmt.Sscan(p[2], &i)
+		msg = oracletypes.NewMsgUpdateFeed(who, c11FeedVariants[i], `{"price":"variant"}`)
+	case "DeleteNotifVariant":
+		from := w.A("X").Bech + " "
+		if p[2] == "1" {
+			from = o + "/" + w.A("X").Bech // tries to reach into O's key space
+		}
+		msg = notiftypes.NewMsgDeleteNotification(who, from, m.NotifT)
+	case "DeleteFileVariant":
+		msg = storagetypes.NewMsgDeleteFile(who, append([]byte{}, c01F1.merkle...), m.Start+0)
 	case "RegisterOwnName":
 		msg = rnstypes.NewMsgRegisterName(who, strings.ToLower(p[1])+"name.jkl", 1, "{}", false)
 	}
@@ -492,6 +518,6 @@ func init() {
 		r.Rules = append(r.Rules, "(1) every message type registered for the custom modules (cross-checked against the Msg services of the registered file descriptors): every assignment of distinct valid addresses to its string fields (all permutations for <=5 fields, all rotations above): GetSigners = [creator], handler routable; (2) for every type three signed transactions through the real ante handler and DeliverTx: signed by another field's account (must be rejected, state unchanged), creator+extra signer (rejected), creator (must authenticate); (3) BFS over owner-only messages replayed by a non-owner N and by the owner O on a state where O owns a provider record, a feed, an inbox entry, a block list, a primary name and a storage file: N's messages leave every record of O byte-identical; (4) wasm binding PerformPostFile with creator = contract / another account")
 		r.Assumptions = append(r.Assumptions, "records 'belonging to O' = keys or values containing O's address in storage/notification/rns stores, and the feed O created")
 		c11Signers(r, tier)
-		r.AddExplore(C11Iso{}, opts(tier, 4, 6, 60, 900, 100, 1000))
+		r.AddExplore(C11Iso{}, opts(tier, 5, 7, 60, 900, 100, 1000))
 	}}
 }
